@@ -214,6 +214,92 @@ def one_trace(rng, case, bname, parameter=True, observed=False, via_copy=False, 
     return {"hdr": hdr, "ev": ev}
 
 
+B2 = {"scale": lambda: tfb.Scale(0.5), "shift": lambda: tfb.Shift(1.25), "chain": lambda: tfb.Chain([tfb.Shift(-0.5), tfb.Scale(2.0)])}
+
+
+def chained_trace(rng, case, b1name, b2name):
+    """x is transformed with a bijector instance, and the new unconstrained variable is transformed again
+    (u = b2^-1(t), t = b1^-1(x)); the model holds all three; afterwards u and the distribution's parameter variables are
+    assigned.  Leaves: x = b1(b2(u)), log p_u(u) = log p_x(b1(b2(u))) + fldj_b1(b2(u)) + fldj_b2(u)."""
+    dist_cls, pspec, x0 = CASES[case]
+    mode, mk, bij_of = BIJ[b1name]
+    assert mode == "instance"
+    pvars, pvals, kw = {}, {}, {}
+    for k, v in pspec.items():
+        if isinstance(v, tuple):
+            pv = lsl.Var(jnp.float32(v[2]), name=v[1])
+            pvars[k], pvals[k], kw[k] = pv, float(v[2]), pv
+        else:
+            kw[k], pvals[k] = v, float(v)
+    x = lsl.Var(jnp.asarray(x0, jnp.float32), lsl.Dist(dist_cls, **kw), name="x")
+    hdr = {"via_copy": False, "per_obs": True, "case": case, "bij": b1name + "+" + b2name, "mode": "instance", "has_dist": True,
+           "parameter": True, "observed": False, "weak": False}
+    x.parameter = True
+
+    def orig_dist(vals):
+        return dist_cls(**{k: jnp.float32(vals[k]) for k in pspec})
+
+    b1, b2 = bij_of({}), B2[b2name]()
+    names3 = ["x", "x_transformed", "x_transformed_transformed"]
+
+    def flags_of(vs):
+        return {n: {"weak": bool(v.weak), "has_dist": bool(v.has_dist), "parameter": bool(v.parameter), "observed": bool(v.observed)}
+                for n, v in vs.items()}
+
+    ev = []
+    args, kwargs = mk({})
+    t = x.transform(*args, **kwargs)
+    ev.append({"ev": "transform", "var": "x", "bij": b1name, "structural_only": True, "ok": True, "reason": "none",
+               "new_name": t.name, "names": names3[:2], "flags": flags_of({"x": x, "x_transformed": t})})
+    e = {"ev": "transform", "var": "x_transformed", "bij": b2name}
+    try:
+        u = t.transform(B2[b2name]())
+        e.update({"ok": True, "reason": "none", "new_name": u.name})
+    except Exception as ex:  # noqa: BLE001
+        e.update({"ok": False, "reason": "other:" + type(ex).__name__ + ":" + str(ex)[:120], "names": names3[:2],
+                  "flags": flags_of({"x": x, "x_transformed": t})})
+        return {"hdr": hdr, "ev": ev + [e]}
+    try:
+        model = lsl.GraphBuilder().add(x, t, u).build_model()
+    except Exception as ex:  # noqa: BLE001  (the three variables of a chain must form one buildable graph)
+        e.update({"ok": False, "reason": "build:" + type(ex).__name__ + ":" + str(ex)[:120], "names": names3,
+                  "flags": flags_of({"x": x, "x_transformed": t, "x_transformed_transformed": u})})
+        return {"hdr": hdr, "ev": ev + [e]}
+    present = [n for n in names3 if n in model.vars]
+
+    def flags():
+        return flags_of({n: model.vars[n] for n in present})
+
+    def leaves(uval):
+        tt = b2.forward(uval)
+        xx = b1.forward(tt)
+        return {"b_t": fl(xx), "logp_b_t": fsum(orig_dist(pvals).log_prob(xx)),
+                "fldj_t": fstr(float(np.sum(np.asarray(fldj_total(b1, tt), np.float64)) + np.sum(np.asarray(fldj_total(b2, uval), np.float64))))}
+
+    u0 = b2.inverse(b1.inverse(jnp.asarray(x0, jnp.float32)))
+    uv = model.vars[u.name] if u.name in model.vars else u
+    lv = leaves(u0)
+    e.update({"names": present, "flags": flags(), "orig_value": fl(model.vars["x"].value), "new_value": fl(uv.value), "copy_ok": True,
+              "model_log_prob": fsum(model.log_prob), "model_log_prior": fsum(model.log_prior), "new_log_prob": fsum(uv.log_prob),
+              "new_per_obs": bool(uv.dist_node.per_obs), "new_lp_scalar": bool(np.ndim(uv.log_prob) == 0),
+              "leaves": {"x": fl(x0), "t": fl(u0), "logp_b_t": lv["logp_b_t"], "fldj_t": lv["fldj_t"]}})
+    ev.append(e)
+    for step in range(4):
+        if step % 2 == 1 and pvars:
+            k = rng.choice(sorted(pvars))
+            pvals[k] = float(np.float32(pvals[k] * rng.uniform(1.2, 2.5)))
+            model.vars[pvars[k].name].value = jnp.float32(pvals[k])
+            target = pvars[k].name
+        else:
+            model.vars[u.name].value = jnp.asarray(np.float32(rng.uniform(-1.5, 1.5)) + 0 * np.asarray(x0, np.float32))
+            target = u.name
+        ucur = jnp.asarray(model.vars[u.name].value)
+        ev.append({"ev": "assign", "target": target, "names": present, "flags": flags(), "orig_value": fl(model.vars["x"].value),
+                   "new_log_prob": fsum(model.vars[u.name].log_prob),
+                   "orig_log_prob": fstr(float(np.sum(np.asarray(model.vars["x"].log_prob)))), "leaves": leaves(ucur)})
+    return {"hdr": hdr, "ev": ev}
+
+
 def rejected_trace(kind):
     """weak variable / variable without distribution: transform must be rejected."""
     if kind == "weak":
@@ -259,4 +345,8 @@ def all_traces(rng, reps=1):
     for case, bname in (("normal_vec", "scale_class_const"), ("normal_vec", "scale_class_var"), ("exponential", "default"),
                         ("gamma_varparam", "auto"), ("halfcauchy", "gb_default")):
         out.append(one_trace(rng, case, bname, per_obs=False))
+    # chained transformations: the new variable of a transformation with a bijector instance is transformed again
+    for case, b1name, b2name in (("exponential", "exp_instance", "scale"), ("gamma_varparam", "exp_instance", "shift"),
+                                 ("beta", "sigmoid_instance", "chain"), ("invgamma", "softplus_instance", "scale")):
+        out.append(chained_trace(rng, case, b1name, b2name))
     return out
